@@ -17,6 +17,7 @@ RULE = (
     "client completes; established traffic continues; exactly one AcceptFailed per handshake that failed (closed / "
     "garbage) and none for a merely silent one; one Accepted per good client."
     " Family replay-stall: a bound SUB socket with a subscription set larger than the transport's buffers; one or two clients complete their side of the handshake and never read — the next client is told the whole set (`rawdrain`), registered, its messages are received, and a further subscribe call returns."
+    ' Family many-after-staller: 1 or 3 clients stalled at offsets 10 / 64 / 70 of their handshake, then 40 (thorough: 140) well-behaved clients one after the other on the same endpoint, tcp and ipc: every one completes its handshake while the stallers are still there; established traffic continues.'
 )
 ASSUMPTIONS = ["PARTIAL: locality is proved on the model; that the code runs ONE TASK PER CONNECTION is observed (good clients complete within the deadline)",
                "`Disconnected` monitor events are not compared (they depend on when a socket looks at a departed probe)"]
@@ -125,6 +126,22 @@ def cases(tier, rng):
                     "rawmsg 2 6e6577", "recv 1", "subbig 1 1 3", "rawmsg 2 6e657732", "recv 1"]
             out.append(Case(f"replay-stall-{tr}-{stalled}#{n}", "net", ops, ["replay-stall"]))
             n += 1
+    # MANY well-behaved clients after one (or three) that stalled: whatever bookkeeping the listener keeps per connection, a
+    # stalled handshake is never something later connections queue up behind — the 1st, the 16th, the 40th client after it
+    # completes its handshake, while the staller is still there
+    for t in (["PULL", "REP"] if tier == "quick" else netgen.TYPES9):
+        peer = netgen.PEER[t]
+        for tr in (["tcp4", "ipc"] if "ipc" in trs else ["tcp4"]):
+            for stallers in (1, 3):
+                ops = [f"sock 1 {t}", f"bind 1 {tr}", "rawconn 1 ep#0", f"rawhs 1 {peer}", "rawwait 1 hs"]
+                for i in range(stallers):
+                    ops += [f"rawconn {10 + i} ep#0", f"rawhs {10 + i} {peer} {[10, 64, 70][i]}", f"rawwait {10 + i} greeting"]
+                ops += [f"probe ep#0 {peer}"] * (40 if tier == "quick" else 140)
+                ops += ["rawconn 2 ep#0", f"rawhs 2 {peer}", "rawwait 2 hs"]
+                if t == "PULL":
+                    ops += ["rawmsg 1 6f6c64", "recv 1", "rawmsg 2 6e6577", "recv 1"]
+                out.append(Case(f"many-after-staller-{t}-{tr}-{stallers}#{n}", "net", ops, ["many-after-staller"]))
+                n += 1
     # connections ABORTED (RST) right after connect, in bursts: some resets arrive before the accept loop has taken the
     # connection (then the per-connection setup fails inside the accept loop itself) — each must fail only itself
     for t in (["PULL", "ROUTER"] if tier == "quick" else netgen.TYPES9):
